@@ -492,7 +492,29 @@ def oracle_c09(case, tb, rec, out):
         return
 
 
-ORACLES = {"C01": oracle_c01, "C02": oracle_c02, "C03": oracle_c03, "C04": oracle_c04, "C09": oracle_c09}
+def oracle_c06(case, tb, rec, out):
+    """first sentence of C06 on the interposed kernel: a row may only be added for an execution whose
+    process exited with status 0 (the kernel knows every wait status exactly)"""
+    if not usable(rec, out):
+        return
+    res = rec["res"]
+    if not isinstance(rec["rows_after"], list):
+        return
+    before = {(r[0], r[1]) for r in rec["rows_before"]}
+    ok0 = {p["task"] for p in res["procs"] if p["status"] == 0}
+    bad = {p["task"] for p in res["procs"] if p["status"] not in (0, None)}
+    out["reach"]["c06_e2_runs"] = out["reach"].get("c06_e2_runs", 0) + 1
+    for r in rec["rows_after"]:
+        if (r[0], r[1]) in before:
+            continue
+        out["reach"]["c06_e2_rows_checked"] = out["reach"].get("c06_e2_rows_checked", 0) + 1
+        if r[0] not in ok0 or r[0] in bad:
+            out["violations"].append({"key": "C06:version-recorded-for-execution-that-did-not-exit-0", "msg": "[interposed kernel] row %s recorded, but that task's process ended with wait status %s" % (r, [p["status"] for p in res["procs"] if p["task"] == r[0]]),
+                                      "witness": witness(case, rec)})
+            return
+
+
+ORACLES = {"C06": oracle_c06, "C01": oracle_c01, "C02": oracle_c02, "C03": oracle_c03, "C04": oracle_c04, "C09": oracle_c09}
 
 
 def eval_case(arg):
